@@ -98,6 +98,14 @@ pub struct HyphenationComponent {
     hyphenator: hyphenate::Hyphenator,
 }
 
+#[cfg(texcraft_verif)]
+impl HyphenationComponent {
+    /// Verification hook: read access to the hyphenator that `\patterns` and `\hyphenation` fill.
+    pub fn hyphenator(&self) -> &hyphenate::Hyphenator {
+        &self.hyphenator
+    }
+}
+
 /// The character that `\patterns` and `\hyphenation` store for a letter: its `\lccode`
 /// (TeX.2021.937 and TeX.2021.962), so that the hyphenator, which looks up lower cased words,
 /// finds patterns and exceptions given in upper case.
